@@ -422,6 +422,33 @@ pub fn run_with<C: VCtx>(ctx: &C, zkp: &Zkp<C>, op: &str, a: &[Value]) -> Value 
             let used = rng::clear();
             json!([cs_out::<C>(&out), xs_out::<C>(&rs), perm, lperm, xs_out::<C>(&lrs), used])
         }
+        // ONE Shuffler value shuffling and proving a sequence of statements: [pk, gens, [[es, label, script_shuffle, script_proof], ...]]
+        // -> per step [out, rs, perm, proof_bytes] (state kept by a prover instance must not change any answer)
+        "shuffle_prove_seq" => {
+            let pk = PublicKey::from_element(&C::e_in(&a[0]), ctx);
+            let gens_all = es_in::<C>(&a[1]);
+            let steps = a[2].as_array().expect("steps");
+            let mut outv: Vec<Value> = vec![];
+            // one Shuffler per distinct N (the generator list is part of the value), reused across steps of that N
+            let n0 = cs_in::<C>(&steps[0][0]).len();
+            let gens: Vec<C::E> = gens_all[..n0 + 1].to_vec();
+            let sh = Shuffler::new(&pk, &gens, ctx);
+            for st in steps {
+                let es = cs_in::<C>(&st[0]);
+                assert!(es.len() == n0);
+                rng::install(hex_in(&st[2]));
+                let (out, rs, perm) = sh.gen_shuffle(&es);
+                rng::clear();
+                rng::install(hex_in(&st[3]));
+                let pr = sh.gen_proof(&es, &out, &rs, &perm, &hex_in(&st[1]));
+                rng::clear();
+                outv.push(match pr {
+                    Ok(p) => json!([cs_out::<C>(&out), xs_out::<C>(&rs), perm, hex_out(&p.strand_serialize().unwrap())]),
+                    Err(_) => json!("err"),
+                });
+            }
+            Value::Array(outv)
+        }
         "apply_permutation" => {
             let script = hex_in(&a[3]);
             let cs = cs_in::<C>(&a[2]);
